@@ -27,6 +27,7 @@ import (
 	"github.com/refraction-networking/uquic/internal/utils"
 	"github.com/refraction-networking/uquic/internal/verifmc/canon"
 	"github.com/refraction-networking/uquic/internal/verifmc/explore"
+	"github.com/refraction-networking/uquic/internal/wire"
 )
 
 const c04Base = monotime.Time(1_000_000_000_000)
@@ -108,6 +109,12 @@ type c04Pending struct {
 	err  error
 }
 
+type c04Ctrl struct {
+	f    wire.Frame
+	s    int // stream index, -1 for DATA_BLOCKED
+	orig int // the limit it reported when it was first put on the wire
+}
+
 type c04World struct {
 	cfg *c04Cfg
 
@@ -135,6 +142,10 @@ type c04World struct {
 	cancelW [2]bool
 	blkS    [2][]int // limit values for which STREAM_DATA_BLOCKED was reported
 	blkC    []int    // limit values for which DATA_BLOCKED was reported
+	// *_BLOCKED frames the framer handed to the packer and that are still unacknowledged: the
+	// sent-packet history keeps the very frame object and puts it on the wire again when the
+	// packet is declared lost
+	ctrlHeld []c04Ctrl
 
 	// ---- receiver ledger (bytes)
 	advS     [2]int // largest stream limit advertised so far
@@ -366,6 +377,11 @@ func (w *c04World) Key() string {
 	k.s("|S ")
 	k.i(w.limC)
 	k.is(w.blkC)
+	k.s("|held")
+	for _, h := range w.ctrlHeld {
+		k.i(h.s)
+		k.i(h.orig)
+	}
 	k.s("|R ")
 	k.i(w.advC)
 	k.is(w.emC)
